@@ -46,13 +46,14 @@ partial def loop (h : IO.FS.Stream) (acc : RunAcc) (maxDiffs : Nat) : IO RunAcc 
         -- crash-mirror lines (`!cmp<k> op`) compare the whole post-fault state; ordinary fault lines only the class
         let isCrash := lhs.startsWith "!"
         let (outCmp, isFault) :=
-          if isCrash then (out, true)
+          if isCrash then (out, out.startsWith "fault ")
           else if out.startsWith "fault " then (((out.splitOn " | ").headD ""), true) else (out, false)
         let expCmp := if isCrash then expected
           else if isFault || expected.startsWith "fault " then ((expected.splitOn " | ").headD "") else expected
         if outCmp == expCmp then
           loop h { acc with st := st', faultsAgreed := acc.faultsAgreed + (if isFault then 1 else 0),
-                            skip := isFault } maxDiffs
+                            -- an injected comparison panic is caught: the queue survives and the case goes on
+                            skip := isFault && !(isCrash && out.startsWith "fault user") } maxDiffs
         else
           if acc.diffs < maxDiffs then
             IO.println s!"DIFF case={acc.caseId} op#{acc.caseLine} line={acc.lines} :: {lhs}"
